@@ -239,7 +239,10 @@ def _build_sheet_id(sheet='', directory='', filename='', **kw):
     sheet = sheet.replace("''", "'").upper()
     if filename:
         if _re_build_id.match(filename):
-            sheet = "[%s]%s" % (filename, sheet)
+            if regex.search(r'[\?!*\/\[\]\':"]', sheet):  # It needs quoting.
+                sheet = "'[%s]%s'" % (filename, sheet.replace("'", "''"))
+            else:
+                sheet = "[%s]%s" % (filename, sheet)
         else:
             if directory and not directory.endswith('/'):
                 directory += '/'
